@@ -87,6 +87,38 @@ M = {
         result?;
 """, ["C18"]),
  "c17-capacity-without-snapshot": (SERVICE, "        let snapshot = self.swc.storage().db.snapshot();\n        let iter = snapshot.iterator(mode).skip(skip);\n\n        let capacity: u64 = iter", "        let snapshot = self.swc.storage().db.clone();\n        let iter = snapshot.iterator(mode).skip(skip);\n\n        let capacity: u64 = iter", ["C17"]),
+ "c17-rollback-lock-dropped-before-rollback": (LC, """                    let rollback_to = to_number + 1;
+                    info!("rollback to block#{}", rollback_to);
+                    self.storage.rollback_to_block(rollback_to);
+                    matched_blocks.clear();""", """                    drop(matched_blocks);
+                    let rollback_to = to_number + 1;
+                    info!("rollback to block#{}", rollback_to);
+                    self.storage.rollback_to_block(rollback_to);
+                    self.peers.matched_blocks().write().expect("poisoned").clear();""", ["C17"]),
+ "c17-block-filters-lock-taken-after-the-batch-is-stored": (BFP, """        let mut matched_blocks = self
+            .filter
+            .peers
+            .matched_blocks()
+            .write()
+            .expect("poisoned");
+
+        let block_filters = self.message.to_entity();""", """        let block_filters = self.message.to_entity();""", ["C17"], [("""            if matched_blocks.is_empty() {
+                if let Some((_start_number, _blocks_count, db_blocks)) =""", """            let mut matched_blocks = self
+                .filter
+                .peers
+                .matched_blocks()
+                .write()
+                .expect("poisoned");
+            if matched_blocks.is_empty() {
+                if let Some((_start_number, _blocks_count, db_blocks)) ="""), ("""        } else if matched_blocks.is_empty()
+            && self.filter.storage.get_earliest_matched_blocks().is_none()""", """        } else if self
+            .filter
+            .peers
+            .matched_blocks()
+            .read()
+            .expect("poisoned")
+            .is_empty()
+            && self.filter.storage.get_earliest_matched_blocks().is_none()""")]),
  "c15-lambda-5": (SAMPLING, "const LAMBDA: u32 = 50;", "const LAMBDA: u32 = 5;", ["C15"]),
  "c15-no-boundary-clamp": (SAMPLING, "        if sample >= self.difficulty_boundary {\n            &self.difficulty_boundary - 1u32\n        } else {\n            sample\n        }", "        sample", ["C15"]),
  "c15-last-n-branch-lt": (LC, "        let content = if last_number - start_number <= last_n_blocks {\n            let last_n_headers = self.storage.get_last_n_headers();", "        let content = if last_number - start_number < last_n_blocks {\n            let last_n_headers = self.storage.get_last_n_headers();", ["C15"]),
